@@ -9,6 +9,7 @@ import collections
 import inspect
 import itertools
 import math  # lgtm [py/unused-import]
+import sys
 import textwrap
 import types
 from typing import Any, Iterable, List, Union
@@ -25,6 +26,11 @@ import vyxal.encoding
 from vyxal import lexer
 from vyxal.context import DEFAULT_CTX, Context
 from vyxal.LazyList import *
+
+# Vyxal numbers are arbitrary precision; since Python 3.11 the conversion
+# between int and str is limited to 4300 digits by default
+if hasattr(sys, "set_int_max_str_digits"):
+    sys.set_int_max_str_digits(0)
 
 NUMBER_TYPE = "number"
 SCALAR_TYPE = "scalar"
